@@ -381,10 +381,11 @@ func runBody(cfg *hv.RunCfg) error {
 	cf := &hv.CaseFile{Dir: cfg.Out, Name: "pbodycases", Imports: imports, Ctype: "bcase", Checker: "check_body_cases",
 		Extras: [][2]string{{"bad_partial", "partial_body_cases"}}}
 	type job struct {
-		src  string
-		tree []*aItem // non-nil: C02 oracle applies
-		rend map[*aItem]string
-		dup  bool
+		src     string
+		tree    []*aItem
+		hasTree bool // C02 oracle applies
+		rend    map[*aItem]string
+		dup     bool
 	}
 	var jobs []job
 	if cfg.Replay != "" {
@@ -417,7 +418,7 @@ func runBody(cfg *hv.RunCfg) error {
 				g := &treeGen{r: r, feat: feat}
 				tree := g.genBody(0, 6)
 				s, rend := renderTree(r, tree, feat)
-				jobs = append(jobs, job{src: s, tree: tree, rend: rend})
+				jobs = append(jobs, job{src: s, tree: tree, rend: rend, hasTree: true})
 			default:
 				// a body defining an attribute twice must be rejected
 				g := &treeGen{r: r, feat: feat}
@@ -426,7 +427,7 @@ func runBody(cfg *hv.RunCfg) error {
 					continue
 				}
 				s, rend := renderTree(r, tree, feat)
-				jobs = append(jobs, job{src: s, tree: tree, rend: rend, dup: true})
+				jobs = append(jobs, job{src: s, tree: tree, rend: rend, dup: true, hasTree: true})
 			}
 		}
 		addFeat(rep, feat)
@@ -450,7 +451,7 @@ func runBody(cfg *hv.RunCfg) error {
 			continue
 		}
 		// direct oracle C02
-		if j.tree != nil {
+		if j.hasTree {
 			if j.dup {
 				rep.Hist("oracle:duplicate-attr")
 				if !diags.HasErrors() {
